@@ -49,6 +49,14 @@ CHECKS = {
    text="Fault enumeration over check characters: every single-digit substitution (9*len) of UPC/EAN numbers is carried by an independently constructed symbol and must be rejected unless the independent predicate says it verifies; every replacement of one Code 128 / Code 93 symbol character by every other data value must be rejected; writer check characters are compared with the mod-103 / mod-47 formulae through pattern tables typed from the standards; wrong supplied check digits must be refused; UPC-E expansion vs. zero suppression over the whole number space; all EAN-2 add-ons and EAN-5 add-ons x all 32 parity patterns.",
    note="Trusted: internal/onedref (UPC/EAN codes, parity tables, Code 128 / Code 93 tables with structural self-checks, checksum formulae). One known finding (upside-down UPC-E misread) is listed in known_findings.json with a matcher specific to that root cause.",
    tech="fault enumeration over substitutions with independently constructed symbols and an independent validity predicate"),
+ "C09": dict(cat="exploration", ref="DESIGN.md §4 C09",
+   text="Generated poses (integer scale, four rotations, QR mirroring, independent padding per side, nil / TRY_HARDER hints) of writer output for QR, Data Matrix and the nine 1-D symbologies are read through the locating path; the result must be the encoded content or a ReaderException, never other content. The positive clauses (1-D upside down with ORIENTATION 180, sideways with TRY_HARDER, transposed QR matrix flagged mirrored) are asserted on the domains the property states. Success rates per symbology and rotation are reported so that the negative guarantee is not satisfied vacuously.",
+   note="Statistical by nature: RS/BCH/check digits make a misread rare by design; the search is over poses and payloads, not over all images. UPC-E upside-down misreads would be matched against the known-finding class shared with C10.",
+   tech="metamorphic property-based testing over image poses (rapid)"),
+ "C14": dict(cat="exploration", ref="DESIGN.md §4 C14",
+   text="Pixel-exact differential against the rendering formula stated in the property, built from the encoder-level module matrix, for all 11 writers: every requested width in 0..natural+3 (and heights) x a set of margins enumerated, larger requests up to 8x and margins 0..20 rapid-generated; BitMatrix's image.Image view checked on every output.",
+   note="Trusted: the 30-line formula implementation in checks/c14 (the property's own formula).",
+   tech="exhaustive small-range enumeration + property-based testing against a formula oracle"),
 }
 
 NOT_YET = {}
